@@ -811,6 +811,39 @@ func (f *Fake) EntityBool(kind, name, prop string) (val, found bool) {
 
 // SetTime overwrites an indexed time property (microseconds since the epoch) of an entity, e.g. to age a
 // backend's LastSeen. It rewrites the stored EntityProto.
+// EntityTime reads a time-valued (int64 microseconds) property of a stored entity.
+func (f *Fake) EntityTime(kind, name, prop string) (time.Time, bool) {
+	f.mu.Lock()
+	defer f.mu.Unlock()
+	for _, e := range f.entities {
+		if e.kind != kind || e.name != name {
+			continue
+		}
+		efs, err := parse(e.raw)
+		if err != nil {
+			return time.Time{}, false
+		}
+		for _, ef := range efs {
+			if ef.num == 14 && ef.typ == protowire.BytesType {
+				if n, _ := parseProperty(ef.b); n == prop {
+					pfs, _ := parse(ef.b)
+					for _, pf := range pfs {
+						if pf.num == 5 {
+							vfs, _ := parse(pf.b)
+							for _, vf := range vfs {
+								if vf.num == 1 {
+									return time.Unix(0, int64(vf.v)*1000), true
+								}
+							}
+						}
+					}
+				}
+			}
+		}
+	}
+	return time.Time{}, false
+}
+
 func (f *Fake) SetTime(kind, name, prop string, t time.Time) bool {
 	f.mu.Lock()
 	defer f.mu.Unlock()
